@@ -161,7 +161,9 @@ reg("C11", "proof", ["contracts.symmetry:AssemblyPermutation", "contracts.symmet
 reg("C12", "proof", ["contracts.covariance:Covariance",
     # density-derived scalar / vector / tensor fields: covariant because they ARE the tensor expressions of C06 / C15 / C14 in the
     # (covariant) orbital derivatives and Coulomb integrals - those defining formulas are re-discharged here on the real routines
-    "contracts.density:GradLapHess", "contracts.stress:StressInline", "contracts.esp:ESPInline"],
+    "contracts.density:GradLapHess", "contracts.stress:StressInline", "contracts.esp:ESPInline",
+    # translation invariance in floating point: the block contracts sampled far from the origin (stress profiles)
+    "contracts.overlap:OverlapBlock@quick", "contracts.diffop:MomentBlock@quick", "contracts.coulomb:PointChargeInline@quick"],
     ["construct_array_contraction of Overlap, KineticEnergyIntegral, MomentumIntegral, AngularMomentumIntegral, Moment, PointChargeIntegral, "
      "ElectronRepulsionIntegral, EvalDeriv on a system and its image (kernels inlined)"],
     note="two symbolic runs of the real block routines (system / image) compared through the representation matrices; translation vector symbolic; "
